@@ -1,16 +1,6 @@
 package main
 
 // Whitelisted T-code roots ("<pkg>.<Func>" or "<pkg>.<Type>.<Method>", relative
-// to go.sia.tech/core).  Callees are pulled in transitively.
-var tcodeRoots = []string{
-	// C15 — currency
-	"types.Currency.Cmp",
-	"types.Currency.Add", "types.Currency.AddWithOverflow",
-	"types.Currency.Sub", "types.Currency.SubWithUnderflow",
-	"types.Currency.Mul", "types.Currency.MulWithOverflow",
-	"types.Currency.Mul64", "types.Currency.Mul64WithOverflow",
-	"types.Currency.Div", "types.Currency.Div64",
-	"types.Currency.quoRem", "types.Currency.quoRem64",
-	"types.Currency.IsZero", "types.Currency.Equals",
-	"types.NewCurrency", "types.NewCurrency64", "types.Siacoins",
-}
+// to go.sia.tech/core).  Callees are pulled in transitively. Other files add
+// roots with `func init() { tcodeRoots = append(tcodeRoots, ...) }`.
+var tcodeRoots = []string{}
